@@ -174,34 +174,93 @@ def check(prog, run):
             raise AnalysisError("C01.G2: Parser.%s not found" % name)
         ok, why = fn(m)
         r.instance("%s: %s" % (name, "contract holds" if ok else why))
+        if not ok and name in ("peek", "advance"):
+            # the token window is the extractor's trusted primitive: its body is matched structurally, so a rewrite cannot be
+            # told from a defect here -> the analysis refuses to run (exit 2) instead of claiming a violation
+            raise AnalysisError("C01.G2: Parser.%s no longer has the shape the recogniser extraction assumes (%s); re-confirm the "
+                                "window model in vf/extract.py" % (name, why))
         if not ok:
-            run.report(r, "%s:Parser.%s:contract" % (PARSER, name), m.where(), "Parser.%s does not have its contract shape: %s" % (name, why))
+            run.report(r, "%s:Parser.%s:contract" % (PARSER, name), m.where(), "Parser.%s does not have its contract: %s" % (name, why))
 
 
 def _norm(e):
     return " ".join(ast.unparse(e).split())
 
 
+def _class_atom_kind(text, what):
+    """Classify an atom of a primitive's guard: 'class' (class of the peeked token vs `what`), 'value' (token value vs keyword)."""
+    t = text.replace(" ", "")
+    if ("__class__" in t or t.startswith("isinstance(") or "type(" in t) and what in t:
+        return "class"
+    if ".value" in t and "keyword" in t:
+        return "value"
+    return None
+
+
+def _exits_under(m, decide):
+    from .. import boolx
+    try:
+        _ev, exits = boolx.walk_under(m.node, decide)
+    except ValueError as e:
+        raise AnalysisError("C01.G2: %s" % e)
+    out = []
+    for kind, st, env in exits:
+        calls = [ast.unparse(c.func) for c in env.get(boolx.CALLS, ())]
+        out.append((kind, st, calls))
+    return out
+
+
 def _returns_advance_iff(m, cond_text):
-    body = [s for s in m.node.body if not (isinstance(s, ast.Expr) and isinstance(s.value, ast.Constant))]
-    if len(body) != 3:
-        return False, "expected: bind peek(); if <class test>: return advance(); raise"
-    a, b, c = body
-    if not (isinstance(a, ast.Assign) and _norm(a.value) == "self.peek()"):
-        return False, "first statement is not `x = self.peek()`"
-    if not (isinstance(b, ast.If) and _norm(b.test) == cond_text and len(b.body) == 1 and isinstance(b.body[0], ast.Return)
-            and "self.advance()" in _norm(b.body[0].value) and not b.orelse):
-        return False, "the guard is `%s`, expected `%s` returning advance()" % (_norm(b.test) if isinstance(b, ast.If) else "?", cond_text)
-    if not isinstance(c, ast.Raise):
-        return False, "no raise on mismatch"
+    """expect / expect_keyword: when every guard atom holds the function advances once and returns that token; otherwise it raises
+    without advancing (decided by a path-consistent walk over the guard atoms, whatever the shape of the test)."""
+    what = "keyword" if "keyword" in m.params else "kind"
+    cls_target = "Name" if what == "keyword" else "kind"
+    atoms = set()
+    for n in ast.walk(m.node):
+        if isinstance(n, (ast.If, ast.IfExp)):
+            from .. import boolx
+            for a in boolx.atoms(n.test):
+                if _class_atom_kind(a, cls_target) or _class_atom_kind(a, "keyword"):
+                    atoms.add(a)
+    if not atoms or not any(_class_atom_kind(a, cls_target) == "class" for a in atoms):
+        return False, "no test of the next token's class against %s" % cls_target
+    if what == "keyword" and not any(_class_atom_kind(a, "keyword") == "value" for a in atoms):
+        return False, "no test of the next token's value against the keyword"
+    import itertools
+    names = sorted(atoms)
+    for vals in itertools.product([True, False], repeat=len(names)):
+        env = dict(zip(names, vals))
+        exits = _exits_under(m, lambda t: env.get(t))
+        for kind, st, calls in exits:
+            adv = calls.count("self.advance")
+            if all(vals):
+                if kind != "return" or adv != 1 or st.value is None or "self.advance()" not in _norm(st.value):
+                    return False, "with the guard true the primitive does not return one advance() (%s, %d advances)" % (kind, adv)
+            else:
+                if kind != "raise" or adv:
+                    return False, "with %s the primitive %s%s instead of raising without consuming" % (
+                        ", ".join("%s=%s" % kv for kv in env.items()), "returns" if kind != "raise" else "raises", " after advancing" if adv else "")
     return True, ""
 
 
 def _skip_contract(m):
-    body = [s for s in m.node.body if not (isinstance(s, ast.Expr) and isinstance(s.value, ast.Constant))]
-    ok = len(body) == 2 and isinstance(body[0], ast.If) and _norm(body[0].test) == "self.peek().__class__ is kind" \
-        and [_norm(s) for s in body[0].body] == ["self.advance()", "return True"] and _norm(body[1]) == "return False"
-    return ok, "expected: if peek().__class__ is kind: advance(); return True / return False"
+    """skip(kind): advances once and returns True iff the next token's class is kind, else returns False without advancing."""
+    from .. import boolx
+    atoms = set()
+    for n in ast.walk(m.node):
+        if isinstance(n, (ast.If, ast.IfExp)):
+            for a in boolx.atoms(n.test):
+                if _class_atom_kind(a, "kind") == "class":
+                    atoms.add(a)
+    if not atoms:
+        return False, "no test of the next token's class against kind"
+    for val in (True, False):
+        for kind, st, calls in _exits_under(m, lambda t: val if t in atoms else None):
+            adv = calls.count("self.advance")
+            ret = st.value.value if (kind == "return" and isinstance(st.value, ast.Constant)) else None
+            if kind != "return" or ret is not val or adv != (1 if val else 0):
+                return False, "class test %s: %s %r after %d advance() calls (expected return %s after %d)" % (val, kind, ret, adv, val, 1 if val else 0)
+    return True, ""
 
 
 def _peek_contract(m):
